@@ -1282,6 +1282,13 @@ def _subscript_safe(ctx, f, node):
                     if at is not None and at not in cfg.reach([cfg.entry], edge_ok=lambda a, b, lab, t=t: not (a is t and lab is True),
                                                              include_start=True):
                         return True, 'dominated by `%s in %s`' % (kt, vt)
+            # `if k not in d: raise/return` before the lookup: the lookup is reached only on the False edge
+            p = t.ast.test
+            if isinstance(p, ast.Compare) and len(p.ops) == 1 and isinstance(p.ops[0], ast.NotIn) \
+                    and unparse(p.left) == kt and unparse(p.comparators[0]) == vt:
+                if at is not None and at not in cfg.reach([cfg.entry], edge_ok=lambda a, b, lab, t=t: not (a is t and lab is False),
+                                                         include_start=True):
+                    return True, 'dominated by the False edge of `%s not in %s`' % (kt, vt)
     # x[0] where x is a comprehension variable filtered on len(x)
     if isinstance(sl, ast.Constant) and sl.value == 0 and isinstance(v, ast.Name):
         n = node.parent
@@ -1450,7 +1457,12 @@ def r33_cli_handlers(ctx):
 # ---------------------------------------------------------------------------
 
 def _digit_regex(e, f):
-    """is e a call `re.match(<digits pattern>, X)` / `<compiled digits>.match(X)`; returns (X name, signed?) or None"""
+    """is e a call `re.match(<digits pattern>, X)` / `<compiled digits>.match(X)` (or that `is not None`); returns (X name, signed?) or None"""
+    if isinstance(e, ast.Compare) and len(e.ops) == 1 and isinstance(e.ops[0], ast.IsNot) and isinstance(e.comparators[0], ast.Constant) \
+            and e.comparators[0].value is None:
+        e = e.left
+    if isinstance(e, ast.Call) and isinstance(e.func, ast.Name) and e.func.id == 'bool' and len(e.args) == 1:
+        e = e.args[0]
     if not (isinstance(e, ast.Call) and isinstance(e.func, ast.Attribute) and e.func.attr in ('match', 'fullmatch')):
         return None
     pat = None
@@ -1495,6 +1507,22 @@ def r58_numbers_and_files(ctx):
             cfg = cfg or cfg_of(f)
             at = cfg.of_stmt[repo.enclosing_stmt(c)]
             ok = False
+            # `int(x) if <digits match on x> else x`: guarded inside the expression
+            par_, child_ = getattr(c, 'parent', None), c
+            while par_ is not None and isinstance(par_, ast.expr):
+                if isinstance(par_, ast.IfExp) and child_ is par_.body:
+                    tt_ = par_.test
+                    for p_ in (tt_.values if isinstance(tt_, ast.BoolOp) and isinstance(tt_.op, ast.And) else [tt_]):
+                        r_ = _digit_regex(p_, f)
+                        if r_ and r_[0] == a.id:
+                            ok = True
+                if isinstance(par_, ast.BoolOp) and isinstance(par_.op, ast.And):
+                    k_ = next((i_ for i_, v_ in enumerate(par_.values) if v_ is child_), 0)
+                    for p_ in par_.values[:k_]:
+                        r_ = _digit_regex(p_, f)
+                        if r_ and r_[0] == a.id:
+                            ok = True
+                child_, par_ = par_, getattr(par_, 'parent', None)
             for t in cfg.nodes:
                 if t.kind != 'test':
                     continue
